@@ -159,11 +159,18 @@ def h_export_purity(h, kind):
     from .c10 import get_model
     T = h.real('T', pos=True)
     ads = stubs.fake_adsorbate(h, 'fakegas', 'f')
-    if kind == 'model':
+    if kind in ('model', 'model-concrete'):
         m = get_model('Langmuir')
-        K, nm = h.real('K', pos=True), h.real('nm', pos=True)
+        if kind == 'model':
+            K, nm = h.real('K', pos=True), h.real('nm', pos=True)
+            m.rmse = h.real('rmse', nonneg=True)
+        else:
+            # concrete twin (code that calls float() / round() on the parameters cannot run on proxies): values that do not
+            # survive a rounding to 8 decimals or a float32 cast
+            h.assume(T > 0)
+            K, nm = 2.6437219e-07, 3.000000000123
+            m.rmse = 1.23456789012e-05
         m.params = {'K': K, 'n_m': nm}
-        m.rmse = h.real('rmse', nonneg=True)
         iso = isofix.model_iso(h, m, ads=ads, T=T)
         iso._adsorbate = type(ads)('fakegas-placeholder')
         before = (dict(m.params), m.rmse, tuple(m.pressure_range), tuple(m.loading_range), iso._temperature, dict(iso.properties))
@@ -172,8 +179,8 @@ def h_export_purity(h, kind):
             pj.isotherm_to_json(iso)
         after = (dict(m.params), m.rmse, tuple(m.pressure_range), tuple(m.loading_range), iso._temperature, dict(iso.properties))
         ok = h.eq(after[0]['K'], before[0]['K']) & h.eq(after[0]['n_m'], before[0]['n_m']) & h.eq(after[1], before[1]) & h.eq(after[4], before[4])
-        h.claim('C04/purity/to_json/model/parameters,rmse,temperature-unchanged', ok)
-        h.claim('C04/purity/to_json/model/ranges,metadata-unchanged', before[2:4] == after[2:4] and before[5] == after[5])
+        h.claim(f'C04/purity/to_json/{kind}/parameters,rmse,temperature-unchanged', ok)
+        h.claim(f'C04/purity/to_json/{kind}/ranges,metadata-unchanged', before[2:4] == after[2:4] and before[5] == after[5])
     else:
         env = c02.Env(h, k=3)
         iso = make_iso(h, env)
@@ -346,7 +353,7 @@ def obligations(tier):
     for name in wrappers.entries():
         if name != 'alpha_s':
             obs.append(Obligation(f'C04/no-hidden-state/{name}', h_no_hidden_state, (name,), bounds='k=3; three runs in one process', **kw))
-    for kind in ('model', 'point'):
+    for kind in ('model', 'model-concrete', 'point'):
         obs.append(Obligation(f'C04/purity/to_json/{kind}', h_export_purity, (kind,), bounds='k=3', **kw))
     for w in ('isosteric_enthalpy', 'iast_point', 'whittaker'):
         obs.append(Obligation(f'C04/purity/{w}', h_multi_iso_purity, (w,), bounds='k=3; 2-3 isotherms in mixed units', **kw))
